@@ -272,8 +272,16 @@ EvalComp(n, env, fuel) ==
       \* RenderContextExposedInIsolated (finding): the component rendered through
       \* Component.render(context=...) sees that context even in isolated mode.
       iso   == IsolatedCall(n, env) /\ ~(Dev(env, "RenderContextExposedInIsolated") /\ env.P.pyctx /\ env.immediate)
-      tvars == IF iso THEN ForwardedLoop(env) \o <<data>> ELSE Append(cvars, data)
-      trvars == IF iso THEN ForwardedLoop(env) \o <<data>> ELSE Append(crvars, data)
+      \* Entry point of the render (C14; optional field n.via, absent = the {% component %} tag; "fresh" / "inst" /
+      \* "resp" / "view" = the Python API: Component.render() / render_to_response() "may be called as class method
+      \* or as instance method", Component.as_view() lets ONE instance answer every request).  The render is the
+      \* same whatever requested it: a new instance `inst` (= the position of the node) with an id of its own - also
+      \* when the caller re-uses one Component object or one view for several renders.  A Python-API render that is
+      \* handed no context is the `only` call (it sees nothing of the caller), and there is no caller context a
+      \* loop could leak from (the deviation ForLoopLeaksIntoIsolated is one of the tag's isolated copy).
+      fwd   == IF "via" \in DOMAIN n THEN <<>> ELSE ForwardedLoop(env)
+      tvars == IF iso THEN fwd \o <<data>> ELSE Append(cvars, data)
+      trvars == IF iso THEN fwd \o <<data>> ELSE Append(crvars, data)
       env2  == [env EXCEPT !.vars = tvars, !.rvars = trvars, !.perm = tvars, !.rperm = trvars,
                            !.immediate = FALSE, !.ckey = TRUE, !.croot = root,
                            !.queue = IF env.ckey THEN env.queue ELSE inst,
